@@ -180,6 +180,17 @@ static PCase decode(Src &s) {
         if (pu.malformedAt >= (int) pu.items.size()) pu.malformedAt = (int) pu.items.size() - 1;
         // an unterminated quote would pair up with a quote in a later item and become a valid string: keep it last
         if (pu.malformedAt >= 0 && (pu.malformed[0] == '"' || pu.malformed[0] == '\'')) pu.items.resize((size_t) pu.malformedAt + 1);
+        // a non-decimal number given to a Bool reader is left open by the statement (numeric, but not the decimal 0/1 the
+        // reader documents): replace it by something that is certainly of the wrong type instead of pinning either outcome
+        {
+            size_t pos = 0;
+            for (auto &r : g.readers) {
+                bool arr = r.kind == R_ARR_I32 || r.kind == R_ARR_U32 || r.kind == R_ARR_F64;
+                size_t take = arr ? (size_t) r.n : 1;
+                for (size_t j = 0; j < take && pos < pu.items.size(); j++, pos++)
+                    if (r.kind == R_BOOL && pu.items[pos].kind == D_NONDEC) pu.items[pos] = genDatum(s, D_STR_DQ, dopt);
+            }
+        }
         for (size_t i = 0; i < pu.items.size(); i++) { pu.seps.push_back(wsp(s, 2)); pu.seps.push_back(wsp(s, 2)); }
         pu.lead = u ? wsp(s, 1) : "";
         c.units.push_back(pu);
